@@ -1,5 +1,687 @@
-use verif_harness::run::Args;
-pub fn run(_args: Args) {
-    println!("INCONCLUSIVE not built yet");
-    std::process::exit(2);
+//! C01: local zone and hosts data always win over cache and upstream.
+
+use dns_resolver::cache::SharedCache;
+use dns_resolver::util::types::{ProtocolMode, ResolvedRecord};
+use dns_types::protocol::types::*;
+use dns_types::zones::types::{Zone, Zones, SOA};
+use serde_json::{json, Value};
+use std::collections::BTreeSet;
+use std::net::{IpAddr, Ipv4Addr, Ipv6Addr, SocketAddr};
+use std::time::Duration;
+
+use verif_harness::crash::{TraceHub, Tracer};
+use verif_harness::names::*;
+use verif_harness::netsim::*;
+use verif_harness::refmodel::zone::{is_suffix, same_name, FlatRec, FlatSoa, FlatZone, RefResult};
+use verif_harness::rng::{fnv, fnv_mix, Rng};
+use verif_harness::run::{Args, Run, Shard};
+
+use crate::{freeze_cache_clock, log_json, result_json, STACK, THREADS};
+
+const APEXES: [&str; 5] = [".", "test.", "a.test.", "b.a.test.", "other."];
+const LABELS: [&str; 3] = ["a", "b", "www"];
+
+struct Config {
+    flats: Vec<FlatZone>,
+    zones: Zones,
+    cache_seed: Vec<ResourceRecord>,
+}
+
+fn below(apex: &DomainName, rel: &[&str]) -> DomainName {
+    let mut ls: Vec<Label> = rel.iter().map(|l| label(l.as_bytes())).collect();
+    ls.extend_from_slice(&apex.labels);
+    DomainName::from_labels(ls).unwrap()
+}
+
+fn rel_name(rng: &mut Rng, apex: &DomainName, max_depth: usize) -> DomainName {
+    let d = rng.below(max_depth + 1);
+    let ls: Vec<&str> = (0..d).map(|_| *rng.pick(&LABELS)).collect();
+    below(apex, &ls)
+}
+
+fn build_zone(fz: &FlatZone) -> Zone {
+    let soa = fz.soa.as_ref().map(|s| SOA {
+        mname: s.mname.clone(),
+        rname: s.rname.clone(),
+        serial: s.serial,
+        refresh: s.refresh,
+        retry: s.retry,
+        expire: s.expire,
+        minimum: s.minimum,
+    });
+    let mut z = Zone::new(fz.apex.clone(), soa);
+    for r in &fz.recs {
+        if r.wildcard {
+            z.insert_wildcard(&r.owner, r.data.clone(), r.ttl);
+        } else {
+            z.insert(&r.owner, r.data.clone(), r.ttl);
+        }
+    }
+    z
+}
+
+fn tagged(rng: &mut Rng, zone_idx: u8, kind: usize) -> RecordTypeWithData {
+    match kind {
+        0 => a(Ipv4Addr::new(10, zone_idx, rng.below(3) as u8, rng.below(3) as u8)),
+        1 => aaaa(Ipv6Addr::new(0xfd00, zone_idx.into(), 0, 0, 0, 0, 0, rng.below(3) as u16)),
+        2 => txt(format!("z{zone_idx}:{}", rng.below(3)).as_bytes()),
+        _ => mx(rng.below(3) as u16, &dn(&format!("mx.z{zone_idx}.example."))),
+    }
+}
+
+fn gen_config(rng: &mut Rng, need_hints: bool) -> Config {
+    let n = rng.range(1, 4);
+    let mut apex_idx: Vec<usize> = (0..APEXES.len()).collect();
+    rng.shuffle(&mut apex_idx);
+    apex_idx.truncate(n);
+    if need_hints && !apex_idx.contains(&0) {
+        apex_idx.push(0);
+    }
+    let apexes: Vec<DomainName> = apex_idx.iter().map(|i| dn(APEXES[*i])).collect();
+    let mut flats = Vec::new();
+    for (zi, apex) in apexes.iter().enumerate() {
+        // non-root zones are authoritative (a configuration cannot produce anything else); the root is either
+        let auth = if apex.is_root() { !need_hints && rng.chance(1, 3) || need_hints && rng.chance(1, 6) } else { true };
+        let soa = if auth {
+            Some(FlatSoa {
+                mname: below(apex, &["mname"]),
+                rname: dn("hostmaster.invalid."),
+                serial: zi as u32 + 1,
+                refresh: 1,
+                retry: 2,
+                expire: 3,
+                minimum: *rng.pick(&[0u32, 60, 300]),
+            })
+        } else {
+            None
+        };
+        let mut recs: Vec<FlatRec> = Vec::new();
+        let mut cuts: Vec<DomainName> = Vec::new();
+        let mut cname_owners: Vec<DomainName> = Vec::new();
+        // delegations first (D1: nothing beneath or at them)
+        if rng.chance(1, 3) {
+            let c = rel_name(rng, apex, 2);
+            // never a cut at the apex, nor at/above the apex of a more specific configured zone (that is the other zone's business)
+            if !same_name(&c, apex) {
+                cuts.push(c.clone());
+                for k in 0..rng.range(1, 2) {
+                    recs.push(FlatRec {
+                        owner: c.clone(),
+                        wildcard: false,
+                        data: ns(&dn(&format!("ns{k}.deleg{zi}.example."))),
+                        ttl: 300,
+                    });
+                }
+            }
+        }
+        let under_cut = |n: &DomainName, cuts: &[DomainName]| cuts.iter().any(|c| is_suffix(n, c));
+        let n_recs = rng.range(0, 12);
+        for _ in 0..n_recs {
+            let owner = rel_name(rng, apex, 3);
+            if under_cut(&owner, &cuts) {
+                continue;
+            }
+            let wildcard = rng.chance(1, 6);
+            let ttl = *rng.pick(&[5u32, 60, 300]);
+            let data = match rng.below(10) {
+                0 | 1 if !same_name(&owner, apex) && !cname_owners.contains(&owner) && !recs.iter().any(|r| same_name(&r.owner, &owner) && r.wildcard == wildcard) => {
+                    cname_owners.push(owner.clone());
+                    // in-zone, cross-zone, or dangling target
+                    let target = match rng.below(4) {
+                        0 => rel_name(rng, apex, 2),
+                        1 => {
+                            let other = rng.pick(&apexes).clone();
+                            rel_name(rng, &other, 2)
+                        }
+                        2 => dn("dangling.nowhere."),
+                        _ => rel_name(rng, &dn("cachedonly."), 1),
+                    };
+                    cname(&target)
+                }
+                2 => a(Ipv4Addr::new(0, 0, 0, 0)), // blocklist entry
+                k => tagged(rng, zi as u8, (k as usize) % 4),
+            };
+            if cname_owners.contains(&owner) && !matches!(data, RecordTypeWithData::CNAME { .. }) && rng.chance(3, 4) {
+                continue; // mostly keep alias names free of other data
+            }
+            recs.push(FlatRec {
+                owner,
+                wildcard,
+                data,
+                ttl,
+            });
+        }
+        if apex.is_root() && need_hints {
+            recs.push(FlatRec {
+                owner: apex.clone(),
+                wildcard: false,
+                data: ns(&dn("r0.rootns.")),
+                ttl: 3600,
+            });
+            recs.push(FlatRec {
+                owner: dn("r0.rootns."),
+                wildcard: false,
+                data: a(Ipv4Addr::new(192, 0, 2, 2)),
+                ttl: 3600,
+            });
+        }
+        flats.push(FlatZone {
+            apex: apex.clone(),
+            soa,
+            recs,
+            preclamped: false,
+        });
+    }
+    // D1 across zones: a more specific configured apex under another zone's cut or wildcard is fine (most specific zone
+    // wins), but records of a zone located at or below a more specific configured apex are shadowed — keep them, they are
+    // exactly the "less specific zone" data the property talks about.
+    let mut zones = Zones::new();
+    for f in &flats {
+        zones.insert(build_zone(f));
+    }
+    // cache: conflicting records for names the zones own, CNAMEs at such names, and unrelated names
+    let mut cache_seed = Vec::new();
+    for (zi, f) in flats.iter().enumerate() {
+        for _ in 0..rng.range(0, 6) {
+            let owner = if !f.recs.is_empty() && rng.chance(2, 3) { rng.pick(&f.recs).owner.clone() } else { rel_name(rng, &f.apex, 3) };
+            let data = match rng.below(6) {
+                0 => cname(&dn("cache-target.cachedonly.")),
+                1 => a(Ipv4Addr::new(172, 16, zi as u8, rng.below(4) as u8)),
+                2 => aaaa(Ipv6Addr::new(0xfd16, zi as u16, 0, 0, 0, 0, 0, rng.below(4) as u16)),
+                3 => txt(format!("cache:{zi}").as_bytes()),
+                4 => ns(&dn("ns.cache-injected.example.")),
+                _ => mx(1, &dn("mx.cache.example.")),
+            };
+            cache_seed.push(rr(&owner, data, 300));
+        }
+    }
+    for l in LABELS {
+        cache_seed.push(rr(&below(&dn("cachedonly."), &[l]), a(Ipv4Addr::new(172, 16, 200, 1)), 300));
+        cache_seed.push(rr(&below(&dn("cachedonly."), &[l]), txt(b"cache:only"), 300));
+    }
+    Config {
+        flats,
+        zones,
+        cache_seed,
+    }
+}
+
+/// Upstream that answers every question with upstream-tagged data (what a hostile or merely different
+/// outside world would say about the names the local zones own).
+fn upstream_responder() -> Responder {
+    Box::new(move |ctx: &Ctx| {
+        let Some(req) = ctx.request else { return (Action::Fail, "bad".into()) };
+        let q = &req.questions[0];
+        let h = fnv(show_name(&q.name).as_bytes());
+        let answers = match q.qtype {
+            QueryType::Record(RecordType::A) => vec![rr(&q.name, a(Ipv4Addr::new(198, 18, (h / 250 % 250) as u8, (h % 250) as u8 + 1)), 300)],
+            QueryType::Record(RecordType::AAAA) => vec![rr(&q.name, aaaa(Ipv6Addr::new(0x2001, 0xdb8, 0xeeee, 0, 0, 0, 0, (h % 250) as u16)), 300)],
+            QueryType::Record(RecordType::TXT) => vec![rr(&q.name, txt(b"up:stream"), 300)],
+            QueryType::Record(RecordType::MX) => vec![rr(&q.name, mx(7, &dn("mx.upstream.example.")), 300)],
+            _ => vec![],
+        };
+        let authority = if answers.is_empty() {
+            vec![rr(
+                &DomainName::root_domain(),
+                RecordTypeWithData::SOA {
+                    mname: dn("up."),
+                    rname: dn("up."),
+                    serial: 1,
+                    refresh: 1,
+                    retry: 1,
+                    expire: 1,
+                    minimum: 1,
+                },
+                300,
+            )]
+        } else {
+            vec![]
+        };
+        (Action::Reply(encode(&reply_to(req, Rcode::NoError, true, answers, authority, vec![]))), "upstream-says".into())
+    })
+}
+
+fn zstar<'a>(flats: &'a [FlatZone], name: &DomainName) -> Option<&'a FlatZone> {
+    flats.iter().filter(|f| is_suffix(name, &f.apex)).max_by_key(|f| f.apex.labels.len())
+}
+
+fn cuts_of(f: &FlatZone) -> Vec<DomainName> {
+    f.recs
+        .iter()
+        .filter(|r| !r.wildcard && matches!(r.data, RecordTypeWithData::NS { .. }) && !same_name(&r.owner, &f.apex))
+        .map(|r| r.owner.clone())
+        .collect()
+}
+
+fn question_names(rng: &mut Rng, cfg: &Config) -> Vec<DomainName> {
+    let mut v: Vec<DomainName> = Vec::new();
+    for f in &cfg.flats {
+        v.push(f.apex.clone());
+        for r in &f.recs {
+            v.push(r.owner.clone());
+            v.push(below(&r.owner, &[*rng.pick(&LABELS)]));
+            v.push(below(&r.owner, &["zz", "yy"]));
+        }
+        v.push(rel_name(rng, &f.apex, 3));
+        v.push(below(&f.apex, &["nope"]));
+    }
+    v.push(dn("outside.everything.example."));
+    v.push(below(&dn("cachedonly."), &[*rng.pick(&LABELS)]));
+    v.retain(|n| n.len <= 200);
+    rng.shuffle(&mut v);
+    v.truncate(14);
+    v
+}
+
+const QTYPES: [QueryType; 9] = [
+    QueryType::Record(RecordType::A),
+    QueryType::Record(RecordType::AAAA),
+    QueryType::Record(RecordType::TXT),
+    QueryType::Record(RecordType::MX),
+    QueryType::Record(RecordType::NS),
+    QueryType::Record(RecordType::CNAME),
+    QueryType::Record(RecordType::SOA),
+    QueryType::Wildcard,
+    QueryType::AXFR,
+];
+
+fn config_json(cfg: &Config) -> Value {
+    json!({
+        "zones": cfg.flats.iter().map(|f| json!({
+            "apex": show_name(&f.apex), "authoritative": f.soa.is_some(), "soa_minimum": f.soa.as_ref().map(|s| s.minimum),
+            "records": f.recs.iter().map(|r| format!("{}{} {} {}", if r.wildcard { "*." } else { "" }, show_name(&r.owner), r.ttl, show_rdata(&r.data))).collect::<Vec<_>>(),
+        })).collect::<Vec<_>>(),
+        "cache_before": rrs_json(&cfg.cache_seed),
+    })
+}
+
+/// Follow a CNAME chain through authoritative zones only.  Returns (chain, Some(final set)) when the chain is fully
+/// determined by authoritative local data (final set empty = name error / no data), else (chain so far, None).
+fn follow_local(flats: &[FlatZone], first: &ResourceRecord, qtype: QueryType) -> (Vec<ResourceRecord>, Option<Vec<ResourceRecord>>) {
+    let mut chain = vec![first.clone()];
+    let mut seen: BTreeSet<DomainName> = BTreeSet::new();
+    seen.insert(first.name.clone());
+    let mut cur = match &first.rtype_with_data {
+        RecordTypeWithData::CNAME { cname } => cname.clone(),
+        _ => return (chain, None),
+    };
+    loop {
+        if !seen.insert(cur.clone()) || chain.len() > 20 {
+            return (chain, None);
+        }
+        let Some(z) = zstar(flats, &cur) else { return (chain, None) };
+        if !z.is_authoritative() {
+            return (chain, None);
+        }
+        match z.lookup(&cur, qtype) {
+            Some(RefResult::Answer(s)) => return (chain, Some(s)),
+            Some(RefResult::NameError) => return (chain, Some(vec![])),
+            Some(RefResult::Cname(c)) => {
+                cur = match &c.rtype_with_data {
+                    RecordTypeWithData::CNAME { cname } => cname.clone(),
+                    _ => return (chain, None),
+                };
+                chain.push(c);
+            }
+            _ => return (chain, None),
+        }
+    }
+}
+
+#[allow(clippy::too_many_lines)]
+fn check(cfg: &Config, mode: &Mode, q: &Question, out: &Outcome, sh: &mut Shard, replay: &dyn Fn() -> Value) {
+    let res = match &out.result {
+        Err(p) => {
+            sh.violation("C01:panic", p.clone(), replay());
+            return;
+        }
+        Ok(r) => r,
+    };
+    let zs = zstar(&cfg.flats, &q.name);
+    let m = mode.name();
+    let no_exchange = |sh: &mut Shard, why: &str| {
+        if !out.log.is_empty() {
+            sh.violation(
+                format!("C01:upstream-contacted-for-locally-answered-question:{m}"),
+                format!("{} upstream exchanges although {why}", out.log.len()),
+                replay(),
+            );
+        }
+    };
+    // (vi) a name error only on the word of an authoritative local zone
+    if let Ok(ResolvedRecord::AuthoritativeNameError { .. }) = res {
+        let ok = zs.is_some_and(|z| z.is_authoritative() && z.lookup(&q.name, q.qtype) == Some(RefResult::NameError));
+        if !ok {
+            sh.violation(format!("C01:name-error-without-authoritative-zone-saying-so:{m}"), "AuthoritativeNameError returned", replay());
+            return;
+        }
+    }
+    // (iv) provenance of every returned record
+    if let Ok(r) = res {
+        for rec in r.clone().rrs() {
+            let Some(zr) = zstar(&cfg.flats, &rec.name) else { continue };
+            if !zr.is_authoritative() {
+                continue;
+            }
+            if cuts_of(zr).iter().any(|c| is_suffix(&rec.name, c)) {
+                continue; // at or beneath a delegation point: not the zone's to answer
+            }
+            // the zone's own data for that owner: records at the name, or synthesised from the wildcard
+            // at the closest existing ancestor when the name itself does not exist
+            let held = if zr.exists(&rec.name) {
+                zr.records_at(&rec.name).iter().any(|x| x.rtype_with_data == rec.rtype_with_data)
+            } else {
+                let mut k = rec.name.labels.len() - 1;
+                loop {
+                    let anc = verif_harness::refmodel::zone::suffix_of(&rec.name, k);
+                    if zr.exists(&anc) {
+                        break zr.wildcards_at(&anc, &rec.name).iter().any(|x| x.rtype_with_data == rec.rtype_with_data);
+                    }
+                    if k <= zr.apex.labels.len() {
+                        break false;
+                    }
+                    k -= 1;
+                }
+            };
+            if !held {
+                let origin = match &rec.rtype_with_data {
+                    RecordTypeWithData::A { address } if address.octets()[0] == 172 => "cache",
+                    RecordTypeWithData::A { address } if address.octets()[0] == 198 => "upstream",
+                    RecordTypeWithData::A { address } if address.octets()[0] == 10 => "another-zone",
+                    RecordTypeWithData::TXT { octets } if octets.starts_with(b"cache") => "cache",
+                    RecordTypeWithData::TXT { octets } if octets.starts_with(b"up") => "upstream",
+                    RecordTypeWithData::AAAA { address } if address.segments()[0] == 0xfd16 => "cache",
+                    RecordTypeWithData::AAAA { address } if address.segments()[0] == 0x2001 => "upstream",
+                    _ => "unknown-source",
+                };
+                sh.violation(
+                    format!("C01:record-for-authoritative-name-not-from-its-zone:{origin}:{m}"),
+                    format!("{} is owned by a name of the authoritative zone {} but is not that zone's data", show_rr(&rec), show_name(&zr.apex)),
+                    replay(),
+                );
+                return;
+            }
+        }
+    }
+    let Some(z) = zs else { return };
+    let Some(want) = z.lookup(&q.name, q.qtype) else { return };
+    if z.is_authoritative() {
+        let soa = z.soa.as_ref().unwrap().rr(&z.apex);
+        match want {
+            RefResult::Answer(s) => {
+                sh.count("case:authoritative-answer", 1);
+                match res {
+                    Ok(ResolvedRecord::Authoritative { rrs, soa_rr }) if same_multiset(rrs, &s) && *soa_rr == soa => {}
+                    other => {
+                        let what = match other {
+                            Ok(ResolvedRecord::Authoritative { .. }) => "wrong-records",
+                            Ok(ResolvedRecord::NonAuthoritative { .. }) => "not-marked-authoritative",
+                            Ok(ResolvedRecord::AuthoritativeNameError { .. }) => "name-error-for-existing-name",
+                            Err(_) => "error",
+                        };
+                        sh.violation(
+                            format!("C01:authoritative-zone-answer-differs:{what}:{m}"),
+                            format!("zone {} defines {} record(s) for the question; resolver returned something else", show_name(&z.apex), s.len()),
+                            replay(),
+                        );
+                        return;
+                    }
+                }
+                no_exchange(sh, "an authoritative zone answers the question");
+            }
+            RefResult::NameError => {
+                sh.count("case:authoritative-name-error", 1);
+                match res {
+                    Ok(ResolvedRecord::AuthoritativeNameError { soa_rr }) if *soa_rr == soa => {}
+                    _ => {
+                        sh.violation(format!("C01:undefined-name-in-authoritative-zone-not-a-name-error:{m}"), format!("zone {} does not define the name", show_name(&z.apex)), replay());
+                        return;
+                    }
+                }
+                no_exchange(sh, "an authoritative zone says the name does not exist");
+            }
+            RefResult::Cname(first) => {
+                sh.count("case:authoritative-cname", 1);
+                let (chain, fin) = follow_local(&cfg.flats, &first, q.qtype);
+                match fin {
+                    Some(s) => {
+                        let mut want_rrs = chain.clone();
+                        let ok = match res {
+                            Ok(ResolvedRecord::Authoritative { rrs, .. }) => {
+                                rrs.len() == chain.len() + s.len() && rrs[..chain.len()] == chain[..] && same_multiset(&rrs[chain.len()..], &s)
+                            }
+                            _ => false,
+                        };
+                        want_rrs.extend(s);
+                        if !ok {
+                            sh.violation(
+                                format!("C01:authoritative-cname-chain-differs:{m}"),
+                                format!("chain through authoritative zones should give {}", serde_json::to_string(&rrs_json(&want_rrs)).unwrap_or_default()),
+                                replay(),
+                            );
+                            return;
+                        }
+                        no_exchange(sh, "the alias chain stays inside authoritative zones");
+                    }
+                    None => {
+                        // T1: the chain leaves authoritative data; the answer must still start with the zone's alias
+                        if let Ok(r) = res {
+                            let rrs = r.clone().rrs();
+                            if rrs.first() != Some(&first) {
+                                sh.violation(format!("C01:authoritative-alias-not-first:{m}"), format!("expected the answer to start with {}", show_rr(&first)), replay());
+                            }
+                        }
+                    }
+                }
+            }
+            RefResult::Referral(ns_set) => {
+                sh.count("case:delegation", 1);
+                if !mode.recursive {
+                    match res {
+                        Ok(ResolvedRecord::Authoritative { rrs, soa_rr }) if same_multiset(rrs, &ns_set) && *soa_rr == soa => {}
+                        _ => {
+                            sh.violation("C01:delegation-not-returned:authoritative-only", "expected the delegation's NS set", replay());
+                            return;
+                        }
+                    }
+                    no_exchange(sh, "authoritative-only mode");
+                } else if mode.forward.is_none() {
+                    // the question itself may only be sent to an address learnt for one of the delegation's name servers
+                    let hosts: Vec<DomainName> = ns_set
+                        .iter()
+                        .filter_map(|r| match &r.rtype_with_data {
+                            RecordTypeWithData::NS { nsdname } => Some(nsdname.clone()),
+                            _ => None,
+                        })
+                        .collect();
+                    let mut learnt: BTreeSet<IpAddr> = BTreeSet::new();
+                    // addresses local data could give for those hosts (zones incl. wildcards, pre-seeded cache)
+                    for h in &hosts {
+                        for t in [RecordType::A, RecordType::AAAA] {
+                            if let Some(zh) = zstar(&cfg.flats, h) {
+                                if let Some(RefResult::Answer(s)) = zh.lookup(h, QueryType::Record(t)) {
+                                    for x in s {
+                                        match x.rtype_with_data {
+                                            RecordTypeWithData::A { address } => {
+                                                learnt.insert(IpAddr::V4(address));
+                                            }
+                                            RecordTypeWithData::AAAA { address } => {
+                                                learnt.insert(IpAddr::V6(address));
+                                            }
+                                            _ => {}
+                                        }
+                                    }
+                                }
+                            }
+                        }
+                        for c in &cfg.cache_seed {
+                            if &c.name == h {
+                                match c.rtype_with_data {
+                                    RecordTypeWithData::A { address } => {
+                                        learnt.insert(IpAddr::V4(address));
+                                    }
+                                    RecordTypeWithData::AAAA { address } => {
+                                        learnt.insert(IpAddr::V6(address));
+                                    }
+                                    _ => {}
+                                }
+                            }
+                        }
+                    }
+                    for e in &out.log {
+                        let Some(eq) = e.question() else { continue };
+                        if eq == q {
+                            if !learnt.contains(&e.addr.ip()) {
+                                sh.violation(
+                                    "C01:delegated-question-sent-elsewhere:recursive",
+                                    format!("{} was sent to {} which is not an address of the delegation's name servers {:?}", question_json(q), e.addr, hosts.iter().map(show_name).collect::<Vec<_>>()),
+                                    replay(),
+                                );
+                            }
+                            break;
+                        }
+                        // an address answer for one of the hosts
+                        if hosts.contains(&eq.name) {
+                            if let Some(bytes) = &e.reply {
+                                if let Ok(msg) = Message::from_octets(bytes) {
+                                    for a in &msg.answers {
+                                        match &a.rtype_with_data {
+                                            RecordTypeWithData::A { address } => {
+                                                learnt.insert(IpAddr::V4(*address));
+                                            }
+                                            RecordTypeWithData::AAAA { address } => {
+                                                learnt.insert(IpAddr::V6(*address));
+                                            }
+                                            _ => {}
+                                        }
+                                    }
+                                }
+                            }
+                        }
+                    }
+                }
+            }
+        }
+    } else {
+        // non-authoritative zone / hosts data
+        if let RefResult::Answer(s) = want {
+            if !s.is_empty() && q.qtype != QueryType::Wildcard {
+                sh.count("case:override-answer", 1);
+                match res {
+                    Ok(ResolvedRecord::NonAuthoritative { rrs, soa_rr: None }) if same_multiset(rrs, &s) => {}
+                    _ => {
+                        sh.violation(
+                            format!("C01:override-records-not-returned-exactly:{m}"),
+                            format!("non-authoritative zone {} holds {} record(s) of the asked name and type", show_name(&z.apex), s.len()),
+                            replay(),
+                        );
+                        return;
+                    }
+                }
+                no_exchange(sh, "a non-authoritative zone holds records of the asked name and type");
+            } else if !s.is_empty() {
+                sh.count("case:override-any", 1);
+                match res {
+                    Ok(r) => {
+                        let rrs = r.clone().rrs();
+                        for x in &s {
+                            if !rrs.contains(x) {
+                                sh.violation(format!("C01:override-record-missing-from-ANY:{m}"), show_rr(x), replay());
+                                return;
+                            }
+                        }
+                        for x in &rrs {
+                            let same_kind = s.iter().any(|y| y.name == x.name && y.rtype_with_data.rtype() == x.rtype_with_data.rtype());
+                            if same_kind && !s.contains(x) {
+                                sh.violation(
+                                    format!("C01:cache-or-upstream-record-added-beside-override:{m}"),
+                                    format!("{} has the name and type of a record the local zone holds but is not it", show_rr(x)),
+                                    replay(),
+                                );
+                                return;
+                            }
+                        }
+                    }
+                    Err(_) => {
+                        // for ANY the resolver goes on to ask upstream; if that fails the whole question fails
+                        sh.count("case:override-any:error", 1);
+                    }
+                }
+            }
+        }
+    }
+}
+
+fn case(rng: &mut Rng, sim: &mut Sim, sh: &mut Shard, tr: &mut Tracer, coords: Value) {
+    let fwd: SocketAddr = "198.51.100.53:53".parse().unwrap();
+    let mode = match rng.below(3) {
+        0 => Mode::authoritative_only(),
+        1 => Mode::recursive(ProtocolMode::OnlyV4, 53),
+        _ => Mode::forwarding(fwd),
+    };
+    let cfg = gen_config(rng, mode.recursive && mode.forward.is_none());
+    let names = question_names(rng, &cfg);
+    for name in &names {
+        // every case starts from the same cache contents ("left by earlier resolutions")
+        for _ in 0..2 {
+            let qtype = *rng.pick(&QTYPES);
+            let q = question(name, qtype);
+            let cache = SharedCache::new();
+            for r in &cfg.cache_seed {
+                cache.insert(r);
+            }
+            sh.eval();
+            tr.begin(|| json!({"coords": coords, "question": question_json(&q), "mode": mode.name()}));
+            let out = sim.resolve(upstream_responder(), &mode, &cfg.zones, &cache, &q);
+            tr.end();
+            let replay = || {
+                json!({"kind": "local-vs-cache-vs-upstream", "coords": coords, "mode": mode.name(), "question": question_json(&q), "configuration": config_json(&cfg),
+                       "result": result_json(&out.result), "exchanges": log_json(&out.log)})
+            };
+            check(&cfg, &mode, &q, &out, sh, &replay);
+            sh.count(&format!("mode:{}", mode.name()), 1);
+            if zstar(&cfg.flats, name).is_some() {
+                let mut h = fnv(format!("{:?}", config_json(&cfg)).as_bytes());
+                h = fnv_mix(h, fnv(show_name(name).as_bytes()));
+                h = fnv_mix(h, u64::from(u16::from(qtype)));
+                sh.nontrivial(fnv_mix(h, fnv(mode.name().as_bytes())));
+            }
+            if sh.want_sample() && !out.log.is_empty() && cfg.flats.len() >= 2 {
+                sh.sample(replay());
+            }
+        }
+    }
+}
+
+pub fn run(args: Args) {
+    let mut run = Run::new(
+        args.clone(),
+        "exploration",
+        "configurations: 1..4 zones over apexes {., test., a.test., b.a.test., other.} (nested), non-root zones authoritative, the \
+         root authoritative or not (hosts-style), <= 12 records each over a three-label alphabet: A/AAAA/TXT/MX, CNAMEs (in-zone, \
+         cross-zone, dangling, into cache-only names), wildcards, delegations, empty non-terminals, 0.0.0.0 blocklist entries; the \
+         cache pre-seeded with conflicting records (incl. CNAME and NS) for names the zones own and with cache-only names; an \
+         upstream (root server / forwarder) that answers every question with upstream-tagged data; questions over owners, names \
+         below and beside them, undefined names, names outside every zone x {A AAAA TXT MX NS CNAME SOA ANY AXFR}; \
+         authoritative-only, recursive and forwarding mode. Oracle: most specific zone (own computation) + the C02 reference \
+         lookup decide what must come back (exact records, AA, SOA, name error, no upstream exchange) and every returned record \
+         owned by an authoritative zone's name must be that zone's data (provenance by unique RDATA tags). non-trivial = question \
+         whose name lies in a configured zone; distinct = distinct (configuration, question, mode).",
+    );
+    run.assume("T1: AA is not demanded once a CNAME chain that starts in an authoritative zone continues into non-authoritative data");
+    run.assume("D1: no data beneath (or wildcard at) a delegation point; which SOA accompanies a cross-zone chain is not pinned");
+    let hub = TraceHub::new(&args, THREADS);
+    hub.start_hang_monitor(Duration::from_secs(120));
+    let n = args.size(200_000, 8_000_000);
+    let seed = args.seed;
+    run.parallel(THREADS, STACK, |ti, sh| {
+        freeze_cache_clock();
+        let mut sim = Sim::new();
+        let mut tr = hub.tracer(ti);
+        let mut rng = Rng::new(seed).fork(0x0100 + ti as u64);
+        for k in 0..(n / THREADS as u64) {
+            case(&mut rng, &mut sim, sh, &mut tr, json!({"thread": ti, "k": k}));
+        }
+    });
+    run.finish(500);
 }
